@@ -205,6 +205,14 @@ def drive_b(rec, ks, quick):
         x = patterns(k, 1, m, rng)[0]
         cin = np.array([rng.choice([0, 1, -1, (1 << 61) >> min(k, 61), -((1 << 61) >> min(k, 61)),
                                     rng.randrange(-(1 << 40), 1 << 40)]) for _ in range(m)], dtype=np.int64)
+        # corners of the (in, carry_in) square: both at the inclusive bound 2^62 (the 64-bit sum would overflow), same and
+        # opposite signs, and digit-boundary values against maximal carries
+        M, half = 1 << 62, 1 << (k - 1)
+        cx = [M, M, -M, -M, M - 1, -M + 1, M, -M, half - 1, -half, M - half, -M + half - 1, M, -M, rng.randrange(-M, M + 1), rng.randrange(-M, M + 1)]
+        cc = [M, -M, M, -M, M, -M, M - 1, -M + 1, M, -M, M, -M, half, -half - 1, rng.randrange(-M, M + 1), rng.choice([M, -M])]
+        x = np.concatenate([x, np.array(cx, dtype=np.int64)])
+        cin = np.concatenate([cin, np.array(cc, dtype=np.int64)])
+        m = len(x)
         for has_out, has_cin, has_cout in [(1, 1, 1), (1, 1, 0), (1, 0, 1), (1, 0, 0), (0, 1, 1), (0, 0, 1)]:
             xb, cb, ob, co = Buf(8 * m), Buf(8 * m), Buf(8 * m, fill=0xEE), Buf(8 * m, fill=0xEE)
             xb.i64[:] = x
